@@ -6,7 +6,32 @@ mod world;
 
 use vf_common::Ctx;
 
+fn rss_kb() -> u64 {
+    std::fs::read_to_string("/proc/self/statm").ok().and_then(|s| s.split_whitespace().nth(1).and_then(|x| x.parse::<u64>().ok())).unwrap_or(0) * 4
+}
+
+/// developer aid: VERIF_LEAKTEST=<n> runs one representative case n times on one thread and prints the resident set size
+fn leaktest(n: u64) {
+    use world::*;
+    let case = Case {
+        streams: vec![StreamSpec { side: 0, port: 1, pad: vec![], delay: 0, park: None, ends: [EndScript { w: vec![WOp::Write(3), WOp::Shutdown], r: vec![ROp::ToEof(8)] }, EndScript { w: vec![WOp::Write(2), WOp::Shutdown], r: vec![ROp::ToEof(8)] }] }],
+        ..Case::default()
+    };
+    for i in 0..n {
+        let r = run::run_case(&case);
+        assert!(r.quiescent);
+        if i % (n / 10).max(1) == 0 {
+            println!("iteration {i}: rss {} kB, steps {}", rss_kb(), r.steps);
+        }
+    }
+    println!("end: rss {} kB", rss_kb());
+}
+
 fn main() {
+    if let Ok(n) = std::env::var("VERIF_LEAKTEST") {
+        leaktest(n.parse().unwrap_or(100_000));
+        return;
+    }
     let ctx = Ctx::from_args(|p| if p == "C08" { "fault_enumeration" } else { "exploration" });
     // a lock cycle inside a poll blocks the simulation thread itself: parking_lot's wait-for-graph detector makes that a verdict
     ctx.enable_stuck_monitor(std::time::Duration::from_secs(8), "endpoint-wedged-deadlock", || !parking_lot::deadlock::check_deadlock().is_empty());
